@@ -29,6 +29,48 @@ ASSUMPTIONS = ["reference = own permanent over the circuit's own U_full, summed 
                "the documented per-state truncation"]
 
 
+def many_photons(ctx, lw, rng):
+    """Many photons bunched on the 2-3 modes of a small (possibly lossy) circuit: occupation factorials beyond 2**63.
+    Judged by the distribution post-conditions (normalisation, sign, photon number, values against the
+    polynomial-expansion reference); both backends up to 14 photons, above that 'slos' only (a 2^n permanent per
+    output pattern is out of reach)."""
+    State, emu = lw.State, lw.emulator
+    from ..gen import haar
+    k = int(rng.choice([2, 2, 3]))
+    c = lw.Unitary(haar(rng, k))
+    log = [["unitary", k]]
+    if rng.random() < 0.4:
+        c.loss(int(rng.integers(k)), float(rng.uniform(0.05, 0.6)))
+        log.append(["loss"])
+    total = int(rng.choice([8, 10, 12, 13, 14, 16, 18, 21, 22, 26] if k == 2 else [8, 10, 12, 13, 14, 16]))
+    occ = [0] * k
+    a = int(rng.integers(k))
+    cut = int(rng.integers(0, total // 2 + 1))
+    occ[a] = total - cut
+    occ[int(rng.choice([i for i in range(k) if i != a]))] = cut
+    case = {"circuit": log, "input": occ}
+    ctx.bucket("many_bunched_photons")
+    dists = {}
+    for backend in (("permanent", "slos") if total <= 14 else ("slos",)):
+        if backend == "slos" and total >= 13:
+            ctx.bucket("slos_occupation_factorials_beyond_63_bits")
+        try:
+            d = emu.Sampler(c, State(occ), backend=backend).probability_distribution
+            dists[backend] = {tuple(st): p for st, p in d.items()}
+        except Exception as e:  # noqa: BLE001
+            ctx.violation(f"Sampler({backend}).probability_distribution raised {type(e).__name__}: {e}", case=case,
+                          mechanism="distribution_raised:" + type(e).__name__, monitor="driver")
+    if len(dists) == 2:
+        ctx.count("cross_backend_comparisons")
+        keys = set(dists["permanent"]) | set(dists["slos"])
+        worst = max((abs(dists["permanent"].get(q, 0) - dists["slos"].get(q, 0)) for q in keys), default=0)
+        if worst > 2e-9 * boson.n_fock(c.U_full.shape[0], total) + 1e-9:
+            ctx.violation(f"permanent and slos distributions differ by {worst:.3g}", case=case,
+                          mechanism="backends_disagree", monitor="cross-backend comparison")
+    ctx.case(("many", k, tuple(sorted(occ)), len(log)), True, sample=case)
+    drain_into(ctx, case)
+
+
 def run(ctx):
     lw = setup(ctx)
     emumon.install()
@@ -38,6 +80,8 @@ def run(ctx):
     previous: list = []
     pool: list = []
     while not ctx.out_of_time():
+        if rng.random() < 0.04:
+            many_photons(ctx, lw, rng)
         loss_p = float(rng.choice([0.0, 0.25, 0.5]))
         b = Builder(rng, lw, loss_p=loss_p, max_herald_photons=1)
         if loss_p == 0:
